@@ -83,6 +83,8 @@ const (
 	c07Q6 // shares the low 30 bits, third value of the top 2 bits
 	c07C6 // identical hash to p6 (second collision group at the deepest level)
 	c07D0 // differs from B in the lowest chunk only
+	c07P3 // shares the low 15 bits
+	c07P4 // shares the low 20 bits
 	c07G0 // ghost (never inserted): hash B
 	c07G1 // ghost: shares the low 30 bits, fourth value of the top 2 bits
 	c07G2 // ghost: unrelated hash
@@ -109,6 +111,8 @@ func init() {
 	set(c07Q6, "q6", c07H(1, 2, 3, 4, 5, 6, 3))
 	set(c07C6, "c6", c07H(1, 2, 3, 4, 5, 6, 2))
 	set(c07D0, "d0", c07H(2, 2, 3, 4, 5, 6, 1))
+	set(c07P3, "p3", c07H(1, 2, 3, 9, 1, 1, 0))
+	set(c07P4, "p4", c07H(1, 2, 3, 4, 9, 30, 3))
 	set(c07G0, "g0", b)
 	set(c07G1, "g1", c07H(1, 2, 3, 4, 5, 6, 0))
 	set(c07G2, "g2", c07H(31, 30, 29, 28, 27, 26, 3))
@@ -662,8 +666,16 @@ func (s *c07Search) run(maxStates int) {
 	var notJudged int64
 	var njMu sync.Mutex
 	depth := 0
+	stopNext := false
 	for lo, levelEnd := 0, len(s.states); lo < len(s.states); {
 		if lo == levelEnd {
+			if stopNext {
+				// the shortest counterexamples have been reported; deeper levels would only repeat them
+				c.Capped(fmt.Sprintf("scenario %s stopped after depth %d because a violation was found", s.sc.name, depth))
+				s.aborted = true
+				break
+			}
+			stopNext = c.Violations() > 0 // one more level, so that the states just created are observed too
 			depth++
 			levelEnd = len(s.states)
 		}
@@ -836,14 +848,20 @@ func (s *c07Search) replayAll() int64 {
 		if key != st.key {
 			c.Violate("replay-differs", fmt.Sprintf("replaying [%s] on a fresh map gives %s, the search had %s", c07OpsString(all), c07Pretty(m), c07Pretty(st.m)), c07OpsString(all))
 		}
-		okRef := len(ref) == st.model.size() && m.Len() == len(ref)
-		for k, v := range ref {
-			if int(st.model[c07KeyID(k)]) != v.(int) {
-				okRef = false
+		okRef := len(ref) == st.model.size()
+		if p := vk.Try(func() {
+			okRef = okRef && m.Len() == len(ref)
+			for k, v := range ref {
+				if int(st.model[c07KeyID(k)]) != v.(int) {
+					okRef = false
+				}
+				if got, ok := m.Index(k); !ok || got != v {
+					okRef = false
+				}
 			}
-			if got, ok := m.Index(k); !ok || got != v {
-				okRef = false
-			}
+		}); p != "" {
+			c.Violate("panic:"+vk.PanicSite(p), fmt.Sprintf("after replaying [%s] on a fresh map a lookup panicked: %s; map %s", c07OpsString(all), p, c07Pretty(m)), c07OpsString(all))
+			return
 		}
 		if !okRef {
 			c.Violate("replay-content-differs", fmt.Sprintf("replaying [%s]: Go map reference %v, search model %v, map %s", c07OpsString(all), ref, &st.model, c07Pretty(m)), c07OpsString(all))
@@ -892,6 +910,8 @@ func c07Scenarios(c *vk.Ctx) []c07Scenario {
 		scs = append(scs, c07Scenario{name: "E1", bases: empty, ops: c07KV([]int{c07A0, c07A1, c07P1, c07P2, c07P5, c07P6, c07D0, c07NilID}, 1, 2, 0)})
 		scs = append(scs, c07Scenario{name: "E2", bases: empty, ops: c07KV([]int{c07A0, c07A1, c07A2, c07P6, c07C6, c07Q6, c07NilID}, 1, 2, 0)})
 	}
+	// E3: the remaining prefix lengths
+	scs = append(scs, c07Scenario{name: "E3", bases: empty, ops: c07KV([]int{c07A0, c07A1, c07P2, c07P3, c07P4, c07P5, c07NilID}, 1, 2, 0)})
 	load := func(ri, n int) []c07Op {
 		var ops []c07Op
 		for j := 0; j < n; j++ {
@@ -940,6 +960,13 @@ func c07Scenarios(c *vk.Ctx) []c07Scenario {
 		ops := fillOps(1, named[1])
 		ops = append(ops, c07KV([]int{c07Fill(0, 0)}, 1, 0)...)
 		scs = append(scs, c07Scenario{name: "F01", bases: bases, ops: ops})
+		// G1: every subset of the 17 level-1 fillers (the node below a one-entry root grows
+		// from empty to an array node and shrinks back to nothing, in every order)
+		var all []int
+		for j := 0; j < 17; j++ {
+			all = append(all, c07Fill(1, j))
+		}
+		scs = append(scs, c07Scenario{name: "G1", bases: empty, ops: append(c07KV(all, 1, 0), c07Op{c07Fill(1, 0), 2})})
 	}
 	return scs
 }
@@ -956,7 +983,7 @@ func TestVerifC07(t *testing.T) {
 			desc = append(desc, fmt.Sprintf("%s: bases {%s}, operations {%s}", sc.name, strings.Join(bn, ","), c07OpsString(sc.ops)))
 		}
 		c.Rule("breadth-first search to the fixpoint (no depth bound) over real hashmap values, one search per scenario; a state is the structural dump of the map (count, nil slot, every trie node with bitmap/children/entries in order); every operation of the scenario is applied to every state; scenarios: " + strings.Join(desc, " | ") +
-			"; keys have table-driven hashes: a0,a1,a2 identical hash B; p1/p2/p5/p6 share the low 5/10/25/30 bits with B; q6 and p6 differ from B only in the top 2 bits; c6 collides fully with p6; d0 differs in the lowest chunk; f<r>.<j> are 17 fillers with distinct chunks at trie level r under B's prefix (L<n> = n fillers loaded, S<n> = 17 loaded then removed down to n); class of a transition = operation kind x node kinds per trie level before>after")
+			"; keys have table-driven hashes: a0,a1,a2 identical hash B; p1/p2/p3/p4/p5/p6 share the low 5/10/15/20/25/30 bits with B; q6 and p6 differ from B only in the top 2 bits; c6 collides fully with p6; d0 differs in the lowest chunk; f<r>.<j> are 17 fillers with distinct chunks at trie level r under B's prefix (L<n> = n fillers loaded, S<n> = 17 loaded then removed down to n); class of a transition = operation kind x node kinds per trie level before>after")
 		c.Assume("the state key is the full structure reachable from the map value, so structurally equal maps have equal futures (eq/hash functions are pure tables)",
 			"values are the ints 1 and 2; keys are ints with a controllable hash or the nil key; the vals.Equal/vals.Hash instantiation is covered by C08",
 			"MarshalJSON of a map containing the nil key is not judged (encoding/json has no such case)")
@@ -965,6 +992,10 @@ func TestVerifC07(t *testing.T) {
 		maxStates := vk.Pick(c, 400_000, 3_000_000)
 		var states, trans, replayed, rechecked int64
 		for i := range scs {
+			if c.Violations() > 0 {
+				c.Capped("scenarios after " + scs[i-1].name + " skipped because a violation was found")
+				break
+			}
 			s := &c07Search{c: c, sc: &scs[i]}
 			s.run(maxStates)
 			states += int64(len(s.states))
